@@ -17,6 +17,10 @@ def run(ctx):
                  "-> check ef -> to bvgraph (sequential / --dcf / --permutation / parallel) -> to endianness -> one of "
                  "transpose / symmetrize / symmetrize --no-loops / perm / map, each with random compression options and "
                  "thread counts 1,2,16, every command in its own process; one case per produced file set or auxiliary step")
-    violations, known = codec.verdict("C20", r)
+    def search():
+        # other seeds, three times as many cases
+        ctx2 = dict(ctx); ctx2["seed"] = ctx["seed"] + 7919
+        return codec.run_art("C20", ctx2, [(m, c * 3, n, so, ex) + tuple(rest) for (m, c, n, so, ex, *rest) in runs if m not in ("data",)])
+    violations, known = codec.verdict("C20", r, search=search)
     r.update({"violations": violations, "known": known})
     return r
